@@ -24,7 +24,13 @@ From FS Require Import Sx Model.Path Model.Stat Model.Tree Model.Pattern Model.F
   Proofs.SenderTransferP Proofs.C11WitnessP.
 Import ListNotations.
 
-(* ---- the hard-link reset, on any listing the filters can leave ---- *)
+(* ---- the hard-link reset, on any listing the filters can leave ----
+   WHICH ENTRIES TAKE PART.  [hl_plain s] = s is neither a directory nor a symlink: regular files,
+   FIFOs, character / block devices, sockets.  These are the entries hardlinkFilter.Walk rewrites
+   and records, and the entries the receiver's Hardlinks validator checks — mkstat gives a Linkname
+   to EVERY non-directory whose inode has several names.  Directories and symlinks (whose
+   Linkname is the link target) pass through both untouched.  All statements below about link
+   groups are about hl_plain entries of every such type (ex_fifo_group_reset). *)
 Theorem reset_links_valid :
   forall l, wf_links l = true -> hardlink_check (hardlink_reset l) = None.
 Proof. exact reset_links_valid_proof. Qed.
@@ -219,6 +225,21 @@ Example ex_listing_reset :
 Proof. vm_compute. split; reflexivity. Qed.
 
 From Coq Require Import String.
+(* a link group of a NON-regular inode: one FIFO with three names, the first filtered out; and a
+   symlink whose target string is the path of the filtered-out name: passed through untouched *)
+Definition fifo_mode : N := ModeNamedPipe + 420.
+Definition ex_fifo_listing : list stat :=
+  [ mkst [98] fifo_mode [97];                      (* b.pipe -> a.pipe  (a.pipe filtered out) *)
+    mkst [99] fifo_mode [97];                      (* c.pipe -> a.pipe *)
+    mkst [115] (ModeSymlink + 511) [97] ].         (* s -> "a.pipe" (symlink) *)
+Example ex_fifo_group_reset :
+  wf_links ex_fifo_listing = true /\ forallb hl_plain ex_fifo_listing = false /\
+  hl_plain (mkst [98] fifo_mode [97]) = true /\
+  map st_linkname (hardlink_reset ex_fifo_listing) = [[]; [98]; [97]] /\
+  hardlink_check (hardlink_reset ex_fifo_listing) = None /\
+  hardlink_check ex_fifo_listing = Some 0%nat.
+Proof. vm_compute. repeat split; reflexivity. Qed.
+
 Open Scope string_scope.
 (* a source with a link group spread over excluded and included paths (C11WitnessP.hl_view):
      a, b -> a, d/{c -> a, e}, f, g -> f      exclude [a]
